@@ -115,7 +115,7 @@ def inputs(ctx):
             if s[:i] not in seen:
                 seen.add(s[:i])
                 out.append(s[:i])
-    for _ in range(1500 if ctx.quick else 30000):
+    for _ in range(1500 if ctx.quick else 50000):
         out.append(corpus.soup(rng))
     for _ in range(300 if ctx.quick else 5000):
         out.append(corpus.mutate(rng, rng.choice(repo)))
@@ -162,6 +162,12 @@ def run(ctx):
                 ctx.violation("the error raised in strict mode is not the first error of the non-strict run",
                               {"kind": "call", "treebuilder": tb, "call": c12.describe(rec["hist"]), "strict": errs, "nonstrict": lc.errs(q)})
     ctx.exhaustive = True
+    ctx.assumptions = ["the documents of harness/conform.py are conforming by my reading of the content models and the optional-tags "
+                       "section (no network); 'AT&T' / '?a=b&c=d' (not ambiguous ampersands) and an omitted </caption> before "
+                       "<colgroup>/<thead>/<tbody>/<tr> are conforming and raise no parse error in the standard's tokenizer / "
+                       "in-caption rules",
+                       "the message table E is html5lib's own: the template clause is a consistency check of the code",
+                       "inputs on which the NON-strict parse itself raises are left to C03 (counted, bounded at 2%)"]
     # 2. code -> spec
     items = []
     ins = inputs(ctx)
@@ -170,7 +176,7 @@ def run(ctx):
         k = 2 if ctx.quick else 4
         for c in ctx.rng.sample(CONTAINERS[1:], k):
             items.append((s, c, None))
-    nconf = 1500 if ctx.quick else 25000
+    nconf = 1500 if ctx.quick else 40000
     for i in range(nconf):
         feats = (i % 4 == 1, i % 4 == 2) if listed else (False, False)
         doc, a, c = conform.conforming(ctx.rng, amp=feats[0] and "amp-not-ambiguous-reported" in listed,
@@ -180,7 +186,8 @@ def run(ctx):
     for key, k in sorted(ctx.open_keys.items()):
         w = k.get("witness", {})
         if "input" in w:
-            items.append((w["input"], None, (0, 0) if w.get("conforming") and False else None))
+            cf = w.get("conforming_features")
+            items.append((w["input"], None, (cf.get("amp", 0), cf.get("cap", 0)) if cf else None))
     recs = core.parallel(_rec_item, items, chunk=400)
     codes, crashes = set(), {}
     for it, rec in zip(items, recs):
